@@ -66,6 +66,7 @@ PROPS = {
     },
     "C05": {
         "corr": [("render", {"quick": 150, "thorough": 3000}), ("manifests", {"quick": 400, "thorough": 8000})],
+        "also": ["C08:sort", "C08:render", "C08:model"],
         "trusted_base": [
             "not modelled: Go text/template and sprig execution (ranging over maps is sorted by text/template itself), the JSON-schema compiler's resource loading; determinism of whole renders is observed (repeated, concurrent, changed environment and working directory, archive- vs directory-loaded charts), not proved; proved: the orderings that feed the engine and the manifest do not depend on map iteration order; regenerated: the function-map facts",
         ],
